@@ -746,9 +746,52 @@ fn run_case(case: &Value, dir: &Path) -> Problems {
                     libc::munmap(ml, a as usize);
                 }
             }
-            "waitid" | "read_pool" | "recv_pool" | "read_multishot" | "recv_multishot" | "pipe" | "to_direct" | "to_file" => {
-                // waitid needs child processes (covered by the repository's own tests); buffer
-                // selection has no system call counterpart (C08 / C15); pipes and descriptor
+            "waitid" => {
+                // One real child per side, waited for by process id (other id types and option
+                // combinations would reap unrelated children of this process).
+                if !(a == 1 && c == 4 && b == 1) {
+                    return;
+                }
+                let spawn = || std::process::Command::new("sh").arg("-c").arg("exit 7").spawn();
+                let (Ok(ca), Ok(mut cl)) = (spawn(), spawn()) else { panic!("fixture: spawn sh") };
+                let got = block_on(ring, a10::process::wait_on(sq.clone(), &ca).flags(a10::process::WaitOption::EXITED));
+                let mut info: libc::siginfo_t = unsafe { std::mem::zeroed() };
+                let rl = cvt(unsafe { libc::waitid(libc::P_PID, cl.id(), &mut info, libc::WEXITED) } as isize);
+                differ(&mut out, "waitid result", json!(errno(&got)), json!(rl.err().unwrap_or(0)));
+                if let Ok(i) = got {
+                    use std::os::unix::process::ExitStatusExt;
+                    differ(&mut out, "waitid: which child", json!(i.pid() as u32 == ca.id()), json!(unsafe { info.si_pid() } as u32 == cl.id()));
+                    differ(&mut out, "waitid: exit status and signal", json!([i.status().into_raw(), i32::from(format!("{:?}", i.signal()) == format!("{:?}", a10::process::Signal::CHILD))]),
+                        json!([unsafe { info.si_status() }, i32::from(info.si_signo == libc::SIGCHLD)]));
+                }
+                let _ = cl.try_wait();
+            }
+            "pipe" => {
+                let got = block_on(ring, a10::pipe::pipe(sq.clone()).kind(kind));
+                let mut fds = [0; 2];
+                let rl = cvt(unsafe { libc::pipe2(fds.as_mut_ptr(), libc::O_CLOEXEC) } as isize);
+                differ(&mut out, "pipe result", json!(errno(&got)), json!(rl.err().unwrap_or(0)));
+                if let Ok([r, w]) = got {
+                    let (lr, lw) = unsafe { (OwnedFd::from_raw_fd(fds[0]), OwnedFd::from_raw_fd(fds[1])) };
+                    let n = block_on(ring, w.write(b"through the pipe".to_vec()));
+                    assert_eq!(unsafe { libc::write(lw.as_raw_fd(), b"through the pipe".as_ptr().cast(), 16) }, 16);
+                    differ(&mut out, "write into the new pipe", json!(n.map_err(|e| e.raw_os_error().unwrap_or(-1))), json!(Ok::<usize, i32>(16)));
+                    let data = block_on(ring, r.read(Vec::with_capacity(32)));
+                    let mut buf = vec![0u8; 32];
+                    let k = unsafe { libc::read(lr.as_raw_fd(), buf.as_mut_ptr().cast(), 32) };
+                    buf.truncate(k.max(0) as usize);
+                    differ(&mut out, "read from the new pipe", json!(data.map_err(|e| e.raw_os_error().unwrap_or(-1))), json!(Ok::<Vec<u8>, i32>(buf)));
+                    if kind == Kind::File {
+                        let cloexec = |fd: RawFd| unsafe { libc::fcntl(fd, libc::F_GETFD) } & libc::FD_CLOEXEC;
+                        let (vr, vw) = (view(ring, &r), view(ring, &w));
+                        let _ = (&vr, &vw);
+                        differ(&mut out, "close-on-exec of the new descriptors", json!([cloexec(r.as_fd().unwrap().as_raw_fd()), cloexec(w.as_fd().unwrap().as_raw_fd())]),
+                            json!([cloexec(lr.as_raw_fd()), cloexec(lw.as_raw_fd())]));
+                    }
+                }
+            }
+            "read_pool" | "recv_pool" | "read_multishot" | "recv_multishot" | "to_direct" | "to_file" => {
+                // Buffer selection has no system call counterpart (C08 / C15); the descriptor
                 // conversions are used by every other case of this file.
             }
             other => out.push(json!({"field": "operation unknown to the replayer", "expected": other, "observed": null})),
